@@ -167,6 +167,25 @@ def conn_keepalive(rng):
     return {"kind": "conn", "device": dev, "log_size": 0, "threads": [ops], "pre_register": [1]}
 
 
+def conn_keepalive_two(rng):
+    """C13 with a second, independent connection alive in the same process: its probes, its own MODELNAME queries and the lines it receives
+    must not influence what the first connection withholds or delivers (per-connection state only)"""
+    spec = conn_keepalive(rng)
+    lat2 = rng.choice([0.0, 0.03, 0.15, 0.4])
+    spec["second"] = {"device": {"type": "scripted", "latency": lat2}}
+    ops = spec["threads"][0]
+    out = []
+    for op in ops:
+        out.append(op)
+        if op[0] == "sleep" and rng.random() < 0.6:
+            r = rng.random()
+            out.append(["get2", "SYS", "MODELNAME"] if r < 0.5 else ["put2", "B", f"F{len(out)}", "1"])
+            if rng.random() < 0.5:
+                out.append(["sleep", rng.choice([0.01, 0.05, 0.12])])
+    spec["threads"][0] = out
+    return spec
+
+
 def conn_log(rng):
     """C20 flavour: sessions shorter and longer than N with snapshots taken at random points by a second caller"""
     spec = conn_traffic(rng, max_threads=2, max_cmds=25, long_idle=rng.random() < 0.3, log_sizes=(0, 1, 2, 5, 100))
